@@ -2,7 +2,7 @@
 W = dict(overlays=['contracts/file_writer.ovl'], harness='harness/C18/writer.c', prop='C18', includes=['.'],
          trusted=['stubs/stdio_stubs.c: failing-sink stdio model (fwrite short counts, fflush/fclose EOF, fopen/remove failure)',
                   'harness/C18/writer.c: assumed contracts for row_group_writer.c, arena.c, buffer.c, parquet_write_file_metadata; '
-                  'writer representation invariant (capacities < 2^30, counters in [0,2^62])'])
+                  'writer representation invariant (capacities < 2^30, counters in [0,2^61])'])
 LEAK = ['--bounds-check', '--pointer-check', '--div-by-zero-check', '--signed-overflow-check',
         '--undefined-shift-check', '--memory-leak-check']
 BND = dict(defines=['CQV_NCOL_MAX=2', 'CQV_NRG_MAX=2'], unwind=4, loop_contracts=False, level='bounded',
@@ -12,11 +12,9 @@ JOBS = [
     dict(name='c18_write_magic', entry='h_write_magic', loop_contracts=False, functions=['write_magic'], wip=True, **W),
     dict(name='c18_ensure_header_written', entry='h_ensure_header', loop_contracts=False,
          functions=['ensure_header_written', 'write_magic'], wip=True, **W),
-    dict(name='c18_flush_row_group', entry='h_flush_row_group', functions=['flush_row_group'],
-         min_loop_obligations=1, wip=True, **W),
-    dict(name='c18_new_row_group', entry='h_new_row_group',
-         functions=['carquet_writer_new_row_group', 'ensure_header_written', 'flush_row_group'],
-         min_loop_obligations=1, wip=True, **W),
+    dict(name='c18_flush_row_group_b', entry='h_flush_row_group', functions=['flush_row_group'], wip=True, **BND, **W),
+    dict(name='c18_new_row_group_b', entry='h_new_row_group',
+         functions=['carquet_writer_new_row_group', 'ensure_header_written', 'flush_row_group'], wip=True, **BND, **W),
     dict(name='c18_close_io_b', entry='h_close_io', functions=['carquet_writer_close'], wip=True, **BND, **W),
     dict(name='c18_close_resources_b', entry='h_close_resources', functions=['carquet_writer_close'], checks=LEAK,
          wip=True, **BND, **W),
